@@ -310,6 +310,20 @@ Theorem C16_host_is_unix_k2_overreads : uri_host_is_unix_chk 2 [37; 50] = UOob.
 Proof. exact uri_host_is_unix_k2_overreads. Qed.
 Print Assumptions C16_host_is_unix_k2_overreads.
 
+(* coap_address_set_unix_domain (src/coap_address.c, reached with the host of a split URI): reads
+   only the host_len bytes of the host, for every host, and sun_path is the host with exactly the
+   complete "%2F"/"%2f" escapes turned into '/', cut at COAP_UNIX_PATH_MAX - 1 and at a NUL *)
+Theorem C16_unix_path_no_overread : forall pmax host,
+  uri_unix_path pmax host =
+  UOk (uri_upto (fun c => c =? 0) (take (pmax - 1) (uri_unix_pure host))).
+Proof. exact uri_unix_path_ok. Qed.
+Print Assumptions C16_unix_path_no_overread.
+
+(* a guard that lets two remaining bytes pass reads past a host ending in "%2" *)
+Theorem C16_unix_path_k2_overreads : uri_unix_path_k 2 26 [37; 50; 70; 120; 37; 50] = UOob.
+Proof. exact uri_unix_path_k2_overreads. Qed.
+Print Assumptions C16_unix_path_k2_overreads.
+
 (* the port coap_split_uri fills in when the URI has none is the one that needs no Uri-Port *)
 Theorem C16_default_port_no_option : forall name dport ponly sch,
   In (name, dport, ponly, sch) uri_schemes -> uri_scheme_default_port sch = dport.
